@@ -118,11 +118,41 @@ class Worker:
                 txt = obj.to_json()
             return D.text(txt), txt, "json"
         except Exception as e:  # noqa: BLE001
+            # to_json itself raises (a C01 matter, reported there): fall back to a structural digest so that
+            # before/after comparisons on this object stay possible
             try:
-                b = pickle.dumps(obj, protocol=4)
-                return "pk:" + D.text(b.hex()), None, "pickle:" + type(e).__name__
-            except Exception as e2:  # noqa: BLE001
-                return "unavailable", None, "none:" + type(e2).__name__
+                return "st:" + self._struct_digest(obj), None, "raises:" + type(e).__name__
+            except Exception:  # noqa: BLE001
+                return "unavailable", None, "raises:" + type(e).__name__
+
+    def _struct_digest(self, obj, depth=0):
+        """Digest of an object's attribute tree (frames, arrays, pydantic models, plain containers)."""
+        import numpy as np
+        import pandas as pd
+
+        if depth > 6:
+            return "deep"
+        if isinstance(obj, (pd.DataFrame, pd.Series)):
+            return D.frame(obj)
+        if isinstance(obj, np.ndarray):
+            return D.text(repr(obj.shape) + obj.tobytes().hex()) if obj.dtype.kind in "fiub" else D.text(repr(obj.tolist()))
+        if isinstance(obj, (str, int, float, bool, type(None), bytes)):
+            return repr(obj)
+        if isinstance(obj, (list, tuple)):
+            return D.text("[" + ",".join(self._struct_digest(x, depth + 1) for x in obj) + "]")
+        if isinstance(obj, dict):
+            return D.text("{" + ",".join(repr(k) + ":" + self._struct_digest(v, depth + 1)
+                                         for k, v in sorted(obj.items(), key=lambda kv: repr(kv[0]))) + "}")
+        if hasattr(obj, "model_dump"):
+            try:
+                return D.text(json.dumps(obj.model_dump(), sort_keys=True, default=str))
+            except Exception:  # noqa: BLE001
+                pass
+        d = getattr(obj, "__dict__", None)
+        if d is not None:
+            keep = {k: v for k, v in d.items() if not k.startswith("_processed_meter_data")}
+            return D.text(type(obj).__name__ + self._struct_digest(keep, depth + 1))
+        return D.text(repr(obj))
 
     def data_state(self, obj) -> dict:
         parts = {}
@@ -625,12 +655,18 @@ class Worker:
         res = []
         for r in (rA, rB):
             try:
-                tw = copy.deepcopy(slot.obj)
                 fresh = self._fresh_data(r)
+            except Exception as e:  # noqa: BLE001  the data class refused the frame: no pair to compare
+                out["class"] = "data-error"
+                out["error"] = _cls(e)
+                return out
+            try:
+                tw = copy.deepcopy(slot.obj)
                 with self._quiet():
                     res.append(("returned", self._do_predict(tw, slot.fam, fresh, True, None)))
             except Exception as e:  # noqa: BLE001
                 res.append((_cls(e), None))
+                out.setdefault("errors", []).append(str(e)[:160])
         out["classes"] = [res[0][0], res[1][0]]
         out["class"] = "done"
         if res[0][1] is not None and res[1][1] is not None:
@@ -657,6 +693,20 @@ class Worker:
                         if bad.any():
                             extra.append(c)
             out["other_cols_differ"] = extra
+            # attribution: does the difference enter through the data class (weather columns differ) or the model?
+            via = []
+            for c in ("temperature", "ghi"):
+                if c in A.columns and c in B.columns:
+                    xa = A.loc[common, c].to_numpy(dtype="float64")[both]
+                    xb = B.loc[common, c].to_numpy(dtype="float64")[both]
+                    if (~((xa == xb) | (np.isnan(xa) & np.isnan(xb)))).any():
+                        via.append(c)
+            out["via_data"] = via
+            if slot.fam in ("daily", "billing"):
+                try:
+                    out["reads"] = "midnight" if bool((A.index.hour == 0).all() and (B.index.hour == 0).all()) else "offset"
+                except Exception:  # noqa: BLE001
+                    out["reads"] = "?"
             if out["n_both"] and slot.fam == "hourly":
                 self.probe("pair_on_hourly")
         return out
